@@ -114,10 +114,12 @@ static cJSON *create_error_object(const struct peer *p, int code, const char *ta
 	if ((tag != NULL) && (reason != NULL)) {
 		cJSON *data = cJSON_CreateObject();
 		if (likely(data != NULL)) {
-			cJSON_AddItemToObject(error, "data", data);
 			if (unlikely(add_subobject_to_object(p, data, cJSON_CreateString(reason), tag) == NULL)) {
+				/* data is already released */
+				cJSON_Delete(error);
 				goto err;
 			}
+			cJSON_AddItemToObject(error, "data", data);
 		}
 	}
 
